@@ -52,6 +52,53 @@ theorem subdivide_contract (num chunks : Nat) (hc : 0 < chunks) (h : chunks ≤ 
 theorem contractB_iff (sizes : List Nat) (num : Nat) : contractB sizes num = true ↔ Contract sizes num := by
   simp [contractB, Contract]
 
+theorem foldl_min_le (l : List Nat) (init : Nat) :
+    l.foldl min init ≤ init ∧ (∀ b ∈ l, l.foldl min init ≤ b) ∧ (l.foldl min init = init ∨ l.foldl min init ∈ l) := by
+  induction l generalizing init with
+  | nil => simp
+  | cons x xs ih =>
+    obtain ⟨h1, h2, h3⟩ := ih (min init x)
+    simp only [List.foldl_cons, List.mem_cons, forall_eq_or_imp]
+    refine ⟨by omega, ⟨by omega, h2⟩, ?_⟩
+    rcases h3 with h3 | h3
+    · rw [h3]
+      rcases Nat.le_total init x with h | h
+      · left; exact Nat.min_eq_left h
+      · right; left; exact Nat.min_eq_right h
+    · right; right; exact h3
+
+/-- `balancedB` decides "sizes differ by at most one" -/
+theorem balancedB_iff (sizes : List Nat) :
+    balancedB sizes = true ↔ ∀ a ∈ sizes, ∀ b ∈ sizes, a ≤ b + 1 := by
+  have key : balancedB sizes = true ↔ ∀ a ∈ sizes, a ≤ sizes.foldl min (sizes.headD 0) + 1 := by
+    simp [balancedB]
+  rw [key]
+  cases sizes with
+  | nil => simp
+  | cons x xs =>
+    obtain ⟨h1, h2, h3⟩ := foldl_min_le (x :: xs) x
+    simp only [List.headD_cons]
+    generalize List.foldl min x (x :: xs) = lo at h1 h2 h3
+    constructor
+    · intro h a ha b hb
+      have := h a ha
+      have := h2 b hb
+      omega
+    · intro h a ha
+      rcases h3 with h3 | h3
+      · subst h3; exact h a ha lo (List.mem_cons_self ..)
+      · exact h a ha _ h3
+
+/-- the two ends of a ghost-cell message use the same MPI tag, and the tags of a node's two
+sides towards the same neighbour (axis with two chunks) differ -/
+theorem flags_match (a b : Nat) (hab : a ≠ b) :
+    boundaryFlag a b true = boundaryFlag b a false ∧ boundaryFlag a b false = boundaryFlag b a true ∧
+    boundaryFlag a b true ≠ boundaryFlag a b false := by
+  unfold boundaryFlag flagUpper flagLower
+  simp only [if_true, Bool.false_eq_true, if_false]
+  split_ifs <;> omega
+
+
 /-! ## one axis: slices tile the axis -/
 
 /-- without ghost cells the slices of the chunks are a disjoint cover of the cells `0..num-1` -/
@@ -535,5 +582,104 @@ theorem volumes_add_up (F : K → K) (lo hi : K) (sizes : List Nat) (hpos : 0 < 
     rw [e1, e2]
 
 end bounds
+
+/-! ## admissibility -/
+
+/-- **more chunks than cells must raise**: if some axis is asked for more chunks than it has
+cells, `from_grid` does not return a mesh (whatever the grid class) -/
+theorem too_many_chunks_raises (kind : GridKind) (r0nz : Bool) (axis : Nat) (shape dec : List Nat)
+    (hpos : ∀ n ∈ shape, 0 < n)
+    (h : ∃ k, k < shape.length ∧ k < dec.length ∧ shape.getD k 0 < dec.getD k 0) :
+    subdivideAxes kind r0nz axis shape dec ≠ .ok := by
+  induction shape generalizing dec axis with
+  | nil => obtain ⟨k, h1, _⟩ := h; simp at h1
+  | cons n ns ih =>
+    cases dec with
+    | nil => obtain ⟨k, _, h2, _⟩ := h; simp at h2
+    | cons c cs =>
+      unfold subdivideAxes
+      obtain ⟨k, h1, h2, h3⟩ := h
+      have hn := hpos n (List.mem_cons_self ..)
+      cases k with
+      | zero =>
+        simp only [List.getD_cons_zero] at h3
+        rw [if_neg (by omega), if_pos (by omega)]
+        simp
+      | succ k =>
+        simp only [List.length_cons, Nat.add_lt_add_iff_right, List.getD_cons_succ] at h1 h2 h3
+        have := ih (axis + 1) cs (fun x hx => hpos x (List.mem_cons_of_mem _ hx)) ⟨k, h1, h2, h3⟩
+        split_ifs <;> simp_all
+
+theorem fromGrid_too_many_chunks (kind : GridKind) (r0nz : Bool) (shape dec : List Nat)
+    (hpos : ∀ n ∈ shape, 0 < n)
+    (h : ∃ k, k < shape.length ∧ k < dec.length ∧ shape.getD k 0 < dec.getD k 0) :
+    fromGridOutcome kind r0nz shape dec ≠ .ok := by
+  unfold fromGridOutcome
+  have := too_many_chunks_raises kind r0nz 0 shape dec hpos h
+  split <;> simp_all
+
+/-- **a cylinder cannot be split radially**, and a hollow cylinder cannot be split at all -/
+theorem cylinder_split_raises (r0nz : Bool) (nr nz cr cz : Nat)
+    (h : 1 < cr ∨ (r0nz = true ∧ 1 < cz)) :
+    fromGridOutcome .cylindrical r0nz [nr, nz] [cr, cz] ≠ .ok := by
+  unfold fromGridOutcome subdivideAxes subdivideAxes subdivideAxes
+  rcases h with h | ⟨h1, h2⟩
+  · rw [if_neg (by omega)]
+    split_ifs <;> simp_all
+  · subst h1
+    split_ifs <;> simp_all
+
+/-- **admissible decompositions are accepted**: at most as many chunks as cells on every axis,
+for every grid class but the cylinder -/
+theorem admissible_ok (kind : GridKind) (hk : kind ≠ .cylindrical) (r0nz : Bool) (axis : Nat) (shape dec : List Nat)
+    (hlen : dec.length = shape.length) (h : ∀ k, k < shape.length → dec.getD k 0 ≤ shape.getD k 0) :
+    subdivideAxes kind r0nz axis shape dec = .ok := by
+  induction shape generalizing dec axis with
+  | nil => cases dec <;> simp_all [subdivideAxes]
+  | cons n ns ih =>
+    cases dec with
+    | nil => simp at hlen
+    | cons c cs =>
+      unfold subdivideAxes
+      have h0 := h 0 (by simp)
+      simp only [List.getD_cons_zero] at h0
+      have hrest := ih (axis + 1) cs (by simpa using hlen) (fun k hk' => by
+        have := h (k + 1) (by simpa using hk')
+        simpa using this)
+      split_ifs with a1 a2 a3
+      · exact hrest
+      · omega
+      · exact absurd a3.1 hk
+      · exact hrest
+
+/-- a z-split of a full cylinder is accepted -/
+theorem cylinder_z_split_ok (nr nz cz : Nat) (h : cz ≤ nz) :
+    fromGridOutcome .cylindrical false [nr, nz] [1, cz] = .ok := by
+  unfold fromGridOutcome subdivideAxes subdivideAxes subdivideAxes
+  simp only [if_true]
+  split_ifs <;> simp_all <;> omega
+
+/-! ## non-vacuity: the hypotheses are satisfiable by non-trivial meshes -/
+
+/-- the 5x4 grid of the design probe, chunks (1,2,2) x (2,2), periodic along x -/
+def exMesh : Mesh := { axes := [[1, 2, 2], [2, 2]], periodic := [true, false] }
+
+example : exMesh.Pos := by decide
+example : Contract [1, 2, 2] 5 ∧ Contract (subdivide 5 3) 5 := by decide
+example : exMesh.len = 6 ∧ exMesh.shape = [5, 4] ∧ exMesh.dec = [3, 2] := by decide
+example : neighbor exMesh 0 true 4 = some 0 ∧ neighbor exMesh 0 false 0 = some 4 ∧
+    neighbor exMesh 1 true 1 = none ∧ neighbor exMesh 1 false 1 = some 0 := by decide
+example : exMesh.box false 3 = [(1, 3), (2, 4)] ∧ exMesh.box true 3 = [(1, 5), (2, 6)] := by decide
+example : InRange [4, 3] exMesh.shape ∧ inBox (exMesh.box false 5) [4, 3] = true := by decide
+/-- the full 3^rank neighbourhood and the plus-shaped one are admissible read sets -/
+example : ∀ d ∈ offs 2, InRange d (exMesh.axes.map fun _ => 3) := by decide
+example : ∀ d ∈ [[1, 1], [0, 1], [2, 1], [1, 0], [1, 2]], InRange d (exMesh.axes.map fun _ => 3) := by decide
+/-- an uneven reference subdivision where `linspace` truncation and the formula agree -/
+example : subdivide 12 5 = [2, 2, 3, 2, 3] := by decide
+/-- with ghost cells neighbouring boxes overlap: the later node wins (here node 1 overwrites the
+last valid cell of node 0), so `extract ∘ combine = id` needs consistent sub-arrays -/
+example : ({ axes := [[1, 2]], periodic := [false] } : Mesh).combine true
+    (fun id _ => id) [1] = some 1 := by decide
+
 
 end PdeVerif.Mesh.C17
